@@ -30,6 +30,8 @@
 #include "orange/orangeinp/UnitProto.hh"
 #include "orange/surf/LocalSurfaceVisitor.hh"
 #include "orange/univ/VolumeView.hh"
+#include "orange/univ/TrackerVisitor.hh"
+#include "corecel/data/HyperslabIndexer.hh"
 
 using namespace celeritas;
 namespace oi = celeritas::orangeinp;
@@ -240,6 +242,7 @@ int main()
                 PathT path;
                 if (!locate(geo, pos, dirs[0], &path)) { std::cout << "pt skip notinside\n"; continue; }
                 double safety;
+                std::vector<double> level_safety;
                 std::ostringstream dump;
                 {
                     OrangeTrackView tv(pref, geo.state->ref(), TrackSlotId{0});
@@ -252,6 +255,30 @@ int main()
                         celeritas::detail::LevelStateAccessor lsa(&geo.state->ref(), TrackSlotId{0}, lev);
                         auto uid = lsa.universe();
                         dump << " " << uid.get() << " " << lsa.vol().get();
+                        {
+                            TrackerVisitor visit_tracker{pref};
+                            double sl = visit_tracker(
+                                [&lsa](auto&& t) { return t.safety(lsa.pos(), lsa.vol()); }, uid);
+                            level_safety.push_back(sl);
+                        }
+                        if (pref.universe_types[uid] == UniverseType::rect_array)
+                        {
+                            // a rect-array cell is a box: dump it as six aligned planes with simple safety
+                            RectArrayId rid{static_cast<RectArrayId::size_type>(pref.universe_indices[uid])};
+                            auto const& rec = pref.rect_arrays[rid];
+                            HyperslabInverseIndexer<3> to_coords(rec.dims);
+                            auto coords = to_coords(lsa.vol().unchecked_get());
+                            dump << " 1"; for (auto x : lsa.pos()) dump << " " << hex(x);
+                            dump << " 6";
+                            char const* names[] = {"px", "py", "pz"};
+                            for (int ax = 0; ax < 3; ++ax)
+                            {
+                                auto grid = pref.reals[rec.grid[ax]];
+                                for (int i = 0; i < 2; ++i)
+                                    dump << " " << names[ax] << " 1 " << hex(grid[coords[ax] + i]);
+                            }
+                            continue;
+                        }
                         if (pref.universe_types[uid] != UniverseType::simple)
                         {
                             dump << " -1"; for (auto x : lsa.pos()) dump << " " << hex(x); dump << " 0";
@@ -288,14 +315,41 @@ int main()
                         if (s >= 0 && s < best) { best = s; bestd = d; }
                     }
                 }
+                // the overload with a search radius (the one Urban MSC calls): radii below, at and above
+                // the safety of every level and of the whole stack
+                std::ostringstream ms;
+                {
+                    std::vector<double> radii = {1e-6, 1e6};
+                    std::vector<double> basis = level_safety; basis.push_back(safety);
+                    for (double b : basis)
+                        if (b > 0 && b < 1e300)
+                            for (double f : {0.5, 0.999999, 1.0, 1.000001, 2.0, 30.0}) radii.push_back(b * f);
+                    OrangeTrackView tv(pref, geo.state->ref(), TrackSlotId{0});
+                    tv = GeoTrackInitializer{pos, dirs[0]};
+                    ms << " " << radii.size();
+                    for (double m : radii) ms << " " << hex(m) << " " << hex(tv.find_safety(m));
+                    ms << " " << level_safety.size();
+                    for (double x : level_safety) ms << " " << hex(x);
+                }
                 os << "pt ok " << hex(safety) << " " << hex(best);
                 for (auto x : bestd) os << " " << hex(x);
                 os << dump.str();
                 // sample the sphere of radius safety*(1 - 1e-6): same volume path
                 int nbad = 0; Real3 badp{0, 0, 0};
-                if (safety > 0 && safety < 1e300)
+                double maxrep = safety;
                 {
-                    double rad = safety * (1 - 1e-6);
+                    OrangeTrackView tv(pref, geo.state->ref(), TrackSlotId{0});
+                    tv = GeoTrackInitializer{pos, dirs[0]};
+                    for (double x : level_safety)
+                        if (x > 0 && x < 1e300)
+                        {
+                            double rm = tv.find_safety(x * 2);
+                            if (rm < 1e300 && rm > maxrep) maxrep = rm;
+                        }
+                }
+                if (maxrep > 0 && maxrep < 1e300)
+                {
+                    double rad = maxrep * (1 - 1e-6);
                     std::vector<Real3> sd = dirs; sd.push_back(bestd);
                     for (auto const& d : sd)
                     {
@@ -307,6 +361,7 @@ int main()
                 }
                 os << " " << nbad;
                 for (auto x : badp) os << " " << hex(x);
+                os << ms.str();
                 std::cout << os.str() << "\n";
             }
             catch (std::exception const& e)
@@ -315,6 +370,33 @@ int main()
                 for (auto& c : w) if (c == '\n') c = ' ';
                 std::cout << "pt skip error " << w.substr(0, 200) << "\n";
             }
+        }
+        else if (cmd == "file")
+        {
+            // a shipped .org.json geometry (prints its bounding box; points follow as pt lines)
+            std::string path; is >> path;
+            geo = Geo{};
+            std::string err;
+            try
+            {
+                geo.params = std::make_unique<OrangeParams>(path);
+                geo.state = std::make_unique<Geo::StateStore>(geo.params->host_ref(), 1);
+            }
+            catch (std::exception const& e)
+            {
+                err = e.what();
+                for (auto& c : err) if (c == '\n') c = ' ';
+                geo = Geo{};
+            }
+            if (err.empty())
+            {
+                auto const& bb = geo.params->bbox();
+                std::cout << "geom ok";
+                for (auto x : bb.lower()) std::cout << " " << hex(x);
+                for (auto x : bb.upper()) std::cout << " " << hex(x);
+                std::cout << "\n";
+            }
+            else std::cout << "geom error " << err.substr(0, 300) << "\n";
         }
         else if (cmd == "endgeom") { std::cout << "endgeom\n"; }
     }
